@@ -513,7 +513,7 @@ uint64_t g_now;
 #define TS_ABS_OK                                                                                                      \
     ((g_tl_len > 0 ==> g_tl_front_i < TSK && TS_HANDLE(&g_tk[g_tl_front_i]) == SIZE_MAX) &&                            \
      (g_run_len > 0 ==> g_run_front_i < TSK && TS_HANDLE(&g_tk[g_run_front_i]) == SIZE_MAX) &&                         \
-     (g_q_size > 0 ==> g_q_top_i < TSK) &&                                                                             \
+     (g_q_size > 0 ==> g_q_top_i < TSK && g_tk[g_q_top_i].node.next == NULL) && /* heap tasks are not linked */          \
      (g_tl_len > 0 && g_q_size > 0 ==> g_tl_front_i != g_q_top_i) &&                                                   \
      (g_run_len > 0 && g_q_size > 0 ==> g_run_front_i != g_q_top_i) &&                                                 \
      (g_run_len > 0 && g_tl_len > 0 ==> g_run_front_i != g_tl_front_i))
